@@ -102,10 +102,15 @@ func processInput(input string, p Parser, vm *vm.Type, doOut bool) {
 		}
 
 		ip := len(*vm.CR.CS)
+		var cErr error
 		if doOut {
-			ByteCode(e, vm.CR)
+			cErr = ByteCode(e, vm.CR)
 		} else {
-			ByteCodeNoStck(e, vm.CR)
+			cErr = ByteCodeNoStck(e, vm.CR)
+		}
+		if cErr != nil {
+			fmt.Println(cErr)
+			return
 		}
 
 		if *flags.ByteCodeFlag {
